@@ -22,7 +22,7 @@ from fractions import Fraction as F
 import numpy as np
 
 PROP = 'C03'
-TARGETS = ['T2', 'T3', 'TC03pyr', 'TC03stack', 'TC03segvol', 'TC03imgvol', 'TC03wireV', 'TC03wireI', 'TC03wireS', 'TC03single']
+TARGETS = ['T2', 'T3', 'TC03pyr', 'TC03stack', 'TC03segvol', 'TC03imgvol', 'TC03wireV', 'TC03wireI', 'TC03wireS', 'TC03single', 'TC03getitem', 'TC03volpos', 'TC03rot']
 LEAN_MODULES = ['HdVerif.Props.C03']
 MODEL_MODULES = ['HdVerif.Model.SegGeom']
 NAMESPACE = 'HdVerif.C03'
@@ -646,7 +646,7 @@ def _guard(ctx, descr, fn, *a):
 
 
 def run_vol(ctx, reqs, pending):
-    n_cases = ctx.n(300, 4000)
+    n_cases = ctx.n(230, 4000)
     for idx in range(n_cases):
         descr, g, arr, mk = build_vol_case(ctx, idx)
         _guard(ctx, descr, check_vol_case, ctx, descr, g, arr, mk, reqs, pending)
@@ -844,7 +844,7 @@ def build_place_case(ctx, idx):
 
 
 def run_place(ctx, reqs, pending):
-    for idx in range(ctx.n(150, 1500)):
+    for idx in range(ctx.n(110, 1500)):
         descr, g, arr, mk = build_place_case(ctx, idx)
         _guard(ctx, descr, check_vol_case, ctx, descr, g, arr, mk, reqs, pending)
 
@@ -920,7 +920,7 @@ def build_src_case(ctx, idx):
 
 
 def run_src(ctx, reqs, pending):
-    for idx in range(ctx.n(200, 2500)):
+    for idx in range(ctx.n(150, 2500)):
         descr, geo, arr, mk, src = build_src_case(ctx, idx)
         _guard(ctx, descr, check_src_case, ctx, descr, geo, arr, mk, src, reqs, pending)
 
@@ -1128,7 +1128,7 @@ def build_img_case(ctx, idx):
 
 
 def run_img(ctx, reqs, pending):
-    for idx in range(ctx.n(200, 2000)):
+    for idx in range(ctx.n(170, 2000)):
         descr, geo, shape, mk = build_img_case(ctx, idx)
         _guard(ctx, descr, check_img_case, ctx, descr, geo, shape, mk, reqs, pending)
 
@@ -1307,7 +1307,7 @@ def build_tiled_case(ctx, idx):
 
 
 def run_tiled(ctx, reqs, pending):
-    for idx in range(ctx.n(200, 2000)):
+    for idx in range(ctx.n(150, 2000)):
         descr, geo, mask, mk = build_tiled_case(ctx, idx)
         _guard(ctx, descr, check_tiled_case, ctx, descr, geo, mask, mk, reqs, pending)
 
@@ -1469,7 +1469,7 @@ def build_tiledpos_case(ctx, idx):
 
 
 def run_tiledpos(ctx, reqs, pending):
-    for idx in range(ctx.n(150, 1500)):
+    for idx in range(ctx.n(110, 1500)):
         descr, geo, mask, mk = build_tiledpos_case(ctx, idx)
         _guard(ctx, descr, check_tiled_case, ctx, descr, geo, mask, mk, reqs, pending)
 
@@ -1863,21 +1863,25 @@ def run(ctx):
             _run_one(ctx, case, reqs, pending)
         except Exception as e:  # noqa: BLE001
             ctx.note(f'corpus case {os.path.basename(f)} could not run: {e}')
-    run_helpers(ctx, reqs, pending)
-    run_volume_positions_helper(ctx, reqs, pending)
-    run_slice_requests_exhaustive(ctx, reqs, pending)
-    run_vol(ctx, reqs, pending)
-    run_place(ctx, reqs, pending)
-    run_src(ctx, reqs, pending)
-    run_img(ctx, reqs, pending)
-    run_tiled(ctx, reqs, pending)
-    run_tiledpos(ctx, reqs, pending)
-    run_pyr(ctx, reqs, pending)
-    run_pyrsrc(ctx, reqs, pending)
+    import sys
+    import time
+    prof = os.environ.get('HD_C03_PROFILE')
+    for fn in (run_helpers, run_volume_positions_helper, run_slice_requests_exhaustive, run_vol, run_place, run_src,
+               run_img, run_tiled, run_tiledpos, run_pyr, run_pyrsrc):
+        t0 = time.time()
+        fn(ctx, reqs, pending)
+        if prof:
+            open(prof, 'a').write(f'{fn.__name__}: {time.time() - t0:.1f}s, {len(reqs)} requests so far' + '\n')
+    t0 = time.time()
     answers = ctx.model(reqs)
+    if prof:
+        open(prof, 'a').write(f'model: {time.time() - t0:.1f}s' + '\n')
     if answers is None:
         return
+    t0 = time.time()
     _compare(ctx, pending, answers)
+    if prof:
+        open(prof, 'a').write(f'compare: {time.time() - t0:.1f}s' + '\n')
 
 
 def _run_one(ctx, case, reqs, pending):
